@@ -29,6 +29,15 @@ CHECKS = {
              "5000+ for information. Restated bounds: linear step bound instead of 'small polynomial'; explicit depth bounds for 'realistic nesting'.",
         note="Trusted: hook H2 counts every scanner / look-ahead / string-parser / reduce step; inputs near 4 GiB are out of reach (offset arithmetic near 2^32 is reached through start offsets).",
         design="§2 C03"),
+    "C04": dict(
+        technique="fault-injection style runtime oracle: catalogued single rule-violating edits of valid programs with expected error class and byte span known by construction; CPython as co-oracle for rejection",
+        text="22 rule families (bracket mismatch/extra/unclosed, dedent to unknown level, tab/space ambiguity, tab after space, characters that cannot begin a token, stray backslash, "
+             "malformed numbers, unterminated strings, bytes/text mixing, non-ASCII bytes, invalid escapes, duplicate parameter, default order, positional after keyword, unpacking "
+             "after **, repeated keyword, bare *, parenthesised star, 'as _', malformed f-strings) are injected at seeded sites of corpus/generated programs and enumerated in five "
+             "contexts; each edited text must be rejected with an error naming the rule at an offset inside the damaged construct. A run that never exercised a rule is inconclusive.",
+        note="Trusted: the rule -> error-class table in mon/checks/c04.py (written from the public error enums); CPython must reject the edited text too except for the three documented earlier/stricter rules.",
+        category="fault_enumeration",
+        design="§2 C04"),
     "C05": dict(
         technique="invariant monitor over recorded token streams (ordering, bounds, gap language, spelling/value tables, bracket/indent state) in both lexer configurations; CPython tokenize as second opinion for comments and NL",
         text="For every text that lexes without error, every token of the default and the full-lexer build is checked against the source bytes: "
@@ -87,6 +96,13 @@ CHECKS = {
              "optional fields / list lengths occurred per node kind.",
         note="Trusted: the generic Debug dump as the independent walk; the 10-line reference rewrite.",
         design="§2 C12"),
+    "C13": dict(
+        technique="runtime differential monitors: located trees of both locators vs a naive line/column model (cross-checked against CPython lineno/col), linear vs indexed locator, error locations; primitive-level exhaustive offset pairs in-process",
+        text="For every program (own layout and CR/CRLF/BOM/continuation/re-indented variants, mutations for error offsets, 40 directed programs whose tree order differs from source "
+             "order) every located range of RandomLocator must equal the model; LinearLocator must return the same located tree (release and debug-assertion builds; its self-check "
+             "panics are observations); locate_error must agree; at primitive level both locators are run on all non-decreasing offset pairs of all small texts.",
+        note="Trusted: the 20-line model in mon/checks/c13.py (validated on every CPython-positioned node of the workload). Known-finding regions excuse only offsets inside (or, once the cursor has gone backwards, after) the recorded constructs.",
+        design="§2 C13"),
     "C14": dict(
         technique="exhaustive small-scope runtime differential: every signature shape is converted by the real API and compared with the structure computed from the generator's description (unique integer defaults make the history unambiguous)",
         text="All signatures within stated bounds (posonly<=1(2), args<=2, vararg, kwonly<=3, kwarg, every legal default subset, annotations, def/lambda) "
